@@ -127,10 +127,19 @@ func (s *JavaAPIListener) EnterAnnotation(ctx *parser.AnnotationContext) {
 			}
 			if pair.Identifier().GetText() == "value" {
 				text := pair.ElementValue().GetText()
-				currentRestAPI.Uri = baseApiUrl + text[1:len(text)-1]
+				currentRestAPI.Uri = baseApiUrl + stripQuotes(text)
 			}
 		}
 	}
+}
+
+// stripQuotes removes the quotes of a string literal; any other value (a constant name ...)
+// is kept as written
+func stripQuotes(text string) string {
+	if len(text) >= 2 && strings.HasPrefix(text, "\"") && strings.HasSuffix(text, "\"") {
+		return text[1 : len(text)-1]
+	}
+	return text
 }
 
 func buildBaseApiUrlString(annotationName string, ctx *parser.AnnotationContext) {
@@ -142,12 +151,12 @@ func buildBaseApiUrlString(annotationName string, ctx *parser.AnnotationContext)
 				pair := valuePair.(*parser.ElementValuePairContext)
 				if pair.Identifier().GetText() == "value" {
 					text := pair.ElementValue().GetText()
-					baseApiUrl = text[1 : len(text)-1]
+					baseApiUrl = stripQuotes(text)
 				}
 			}
 		} else if ctx.ElementValue() != nil {
 			text := ctx.ElementValue().GetText()
-			baseApiUrl = text[1 : len(text)-1]
+			baseApiUrl = stripQuotes(text)
 		} else {
 			baseApiUrl = "/"
 		}
